@@ -17,6 +17,7 @@ import (
 	"go/parser"
 	"go/token"
 	"sort"
+	"strconv"
 	"strings"
 )
 
@@ -86,6 +87,21 @@ func hasStringLit(f *file, node ast.Node, lit string) bool {
 		bl, ok := n.(*ast.BasicLit)
 		if ok && bl.Kind == token.STRING && bl.Value == `"`+lit+`"` {
 			found = true
+		}
+		return !found
+	})
+	return found
+}
+
+// hasStringLitContaining: some string literal (interpreted or raw) below node contains sub.
+func hasStringLitContaining(f *file, node ast.Node, sub string) bool {
+	found := false
+	ast.Inspect(node, func(n ast.Node) bool {
+		bl, ok := n.(*ast.BasicLit)
+		if ok && bl.Kind == token.STRING {
+			if v, err := strconv.Unquote(bl.Value); err == nil && strings.Contains(v, sub) {
+				found = true
+			}
 		}
 		return !found
 	})
@@ -261,6 +277,54 @@ func init() {
 				add("srvFixTimeoutIdentity", 0, true)
 			default:
 				anchorLost("%s: InvokeTimeout is neither the as-found nor the repaired variant the model knows (version echoed: %v, packet type echoed: %v, nothing for one-way: %v)", rel, ver, pt, oneway)
+			}
+		}
+
+		// ---- the TUP answer branch of the dispatcher tars2go emits (gen_go.go, genSwitchCase) ----
+		// `for _, v := range fun.Args { if v.IsOut { g.P("buf.Reset()"); <write v at tag 0>; g.P("rspTup.PutBuffer(", name, ", buf.ToBytes())") } }`
+		// the shared buffer must be cleared before EVERY out parameter: it holds the return value (first
+		// one) or the previous out parameter (later ones)
+		const grel = "tars/tools/tars2go/gencode/gen_go.go"
+		mirrored[grel] = append(mirrored[grel], "GenGo.genSwitchCase")
+		if gf := parse(grel); gf != nil {
+			if fd := gf.funcDecl("GenGo.genSwitchCase"); fd != nil {
+				loops := 0
+				first, later := int64(1), int64(1)
+				ast.Inspect(fd, func(n ast.Node) bool {
+					rs, ok := n.(*ast.RangeStmt)
+					if !ok || exprStr(gf.fset, rs.X) != "fun.Args" || len(rs.Body.List) != 1 {
+						return true
+					}
+					is, ok := rs.Body.List[0].(*ast.IfStmt)
+					if !ok || !strings.HasSuffix(exprStr(gf.fset, is.Cond), ".IsOut") || !hasStringLit(gf, is.Body, "rspTup.PutBuffer(") {
+						return true
+					}
+					loops++
+					direct, nested := false, false
+					for _, st := range is.Body.List {
+						if es, ok := st.(*ast.ExprStmt); ok && hasStringLit(gf, es, "buf.Reset()") {
+							direct = true
+						} else if _, isExpr := st.(*ast.ExprStmt); !isExpr && hasStringLit(gf, st, "buf.Reset()") {
+							nested = true
+						}
+					}
+					switch {
+					case direct:
+					case !nested:
+						first, later = 0, 0
+					default:
+						anchorLost("%s: genSwitchCase: in the TUP answer branch `buf.Reset()` is emitted under a condition; the model knows: before every out parameter, or never", grel)
+					}
+					return true
+				})
+				if loops != 1 {
+					anchorLost("%s: genSwitchCase: the out-parameter loop of the TUP answer branch (`rspTup.PutBuffer(<name>, …)`) was found %d times", grel, loops)
+				}
+				add("srvGenTupResetFirstOut", first, true)
+				add("srvGenTupResetLaterOut", later, true)
+				if !hasStringLitContaining(gf, fd, `rspTup.PutBuffer("", buf.ToBytes())`) || !hasStringLitContaining(gf, fd, `rspTup.PutBuffer("tars_ret", buf.ToBytes())`) {
+					anchorLost("%s: genSwitchCase: the return value is no longer stored under \"\" and \"tars_ret\"", grel)
+				}
 			}
 		}
 
